@@ -247,7 +247,8 @@ Inductive levent :=
 | VAlive (b : bool)
 | VObs (nact nreq : Z) (flags : list (bool * bool * bool * bool))   (* active, ref, closing, closed *)
 | VBt (t : Z)
-| VRunStart (mode : nat)
+| VRunStart (mode : nat) (alive : bool)
+| VStopReq
 | VRun (r : bool)
 | VLoopClose (c : Z).
 
@@ -301,7 +302,7 @@ Definition lapi (s : lstate) (o : lop) : lstate * list levent :=
   | LSend i =>
       if usable s i && kind_is s i KAsync then (async_send s i, [VRet 0]) else (s, [])
   | LWork a => (work_submit s a, [VRet 0])
-  | LStopLoop => (set_stop s true, [])
+  | LStopLoop => (set_stop s true, [VStopReq])
   | LAdv d => (set_clock s (clock s + Z.max 0 d), [])
   | LAlive => (s, [VAlive (loop_alive s)])
   | LObs => (s, [obs s])
@@ -525,7 +526,7 @@ Fixpoint lrun (s : lstate) (os : list lop) (beh : nat -> list lop) : lstate * li
   | [] => (s, [])
   | LRun m :: os' =>
       let '(s1, e1) := uv_run run_fuel s beh m in
-      let '(s2, e2) := lrun s1 os' beh in (s2, VRunStart m :: e1 ++ e2)
+      let '(s2, e2) := lrun s1 os' beh in (s2, VRunStart m (loop_alive s) :: e1 ++ e2)
   | LLoopClose :: os' =>
       let '(s2, e2) := lrun s os' beh in (s2, VLoopClose (loop_close_code s) :: e2)
   | o :: os' =>
